@@ -14,7 +14,7 @@
       `try { … } catch (...) { }` confines what the try block throws): `dtors` = every user-provided destructor
       with the calls through which an exception may LEAVE it, `dtorsDeferred` = the calls it guards. On the current
       tree no destructor can let an exception escape (`dtors_cannot_let_exceptions_escape`, the hypothesis of (1));
-      exactly three destructors have fallible work and defer it (`deferring_dtors_are_the_three_scopes`). A new
+      exactly four destructors have fallible work and defer it (`deferring_dtors_are_the_four_scopes`). A new
       throwing call in any destructor — or the removal of one of the try/catch blocks — breaks the first
       theorem by name. Before fixes 149505c / d75a225 two destructors were fallible (the recorded classes
       msgpack-object-dtor-throws, csv-write-dtor-throws); `throwing_dtor_terminates` keeps the reason why that
@@ -318,15 +318,17 @@ theorem dtors_cannot_let_exceptions_escape : dtors.all (fun d => d.2.isEmpty) = 
   decide
 
 /-- the destructors that have fallible work and defer its error to `Finalize()`: the CSV row flush, the MsgPack
-    unread-member skip and the MsgPack unread-element skip — the `Dtor.defers` scopes of the machine -/
-theorem deferring_dtors_are_the_three_scopes :
+    unread-member skip, the MsgPack unread-element skip and the MsgPack unread-byte skip of the binary scope — the
+    `Dtor.defers` scopes of the machine -/
+theorem deferring_dtors_are_the_four_scopes :
     dtorsDeferred.filter (fun d => !d.2.isEmpty) =
       [("BitSerializer::Csv::Detail::CCsvWriteObjectScope::~CCsvWriteObjectScope", ["NextLine"]),
        ("BitSerializer::MsgPack::Detail::CMsgPackReadArrayScope::~CMsgPackReadArrayScope", ["SkipValue"]),
+       ("BitSerializer::MsgPack::Detail::CMsgPackReadBinaryScope::~CMsgPackReadBinaryScope", ["ReadBinary"]),
        ("BitSerializer::MsgPack::Detail::CMsgPackReadObjectScope::~CMsgPackReadObjectScope", ["ResetKey", "SkipValue"])] := by
   decide
 
-/-- the user-provided destructors of the library: the three scopes above, the scope base class (parent notification),
+/-- the user-provided destructors of the library: the four scopes above, the scope base class (parent notification),
     the four root scopes (owning `delete` of the reader/writer) and the interface/base destructors -/
 theorem dtor_inventory :
     dtors.map (·.1) =
@@ -336,6 +338,7 @@ theorem dtor_inventory :
        "BitSerializer::Csv::Detail::ICsvReader::~ICsvReader",
        "BitSerializer::Csv::Detail::ICsvWriter::~ICsvWriter",
        "BitSerializer::MsgPack::Detail::CMsgPackReadArrayScope::~CMsgPackReadArrayScope",
+       "BitSerializer::MsgPack::Detail::CMsgPackReadBinaryScope::~CMsgPackReadBinaryScope",
        "BitSerializer::MsgPack::Detail::CMsgPackReadObjectScope::~CMsgPackReadObjectScope",
        "BitSerializer::MsgPack::Detail::CMsgPackScopeBase::~CMsgPackScopeBase",
        "BitSerializer::MsgPack::Detail::CVariableKey::~CVariableKey",
